@@ -244,7 +244,7 @@ type c08Run struct {
 	CbErr     string // "D:"/"F:"-prefixed item whose callback fails ("" = none)
 	RdErr     string // normalised directory whose listing fails ("" = none, "." = root)
 	GMP       int
-	DelayMode int // 0 none, 1 random yields/sleeps, 2 additionally hold consumers in the gap until close is announced
+	DelayMode int // 0 none, 1 random yields/sleeps, 2 additionally hold consumers in the gap until close is announced, 3 every callback sleeps 150 us
 	Seed      uint64
 	Index     int
 	Start     string // argument of Run: "" (= "./"), "./" or a directory of the tree spelled "x/y/" or "./x/y/"
@@ -436,6 +436,13 @@ func (r *c08Run) exec() (obs c08Obs) {
 	)
 	delay := func(point string) {
 		if r.DelayMode == 0 {
+			return
+		}
+		if r.DelayMode == 3 { // forced wide runs: every callback takes a while, so that whoever runs a
+			// callback besides the consumers (a producer that found its queue full) overlaps with them
+			if point == "callback" {
+				time.Sleep(150 * time.Microsecond)
+			}
 			return
 		}
 		n := atomic.AddUint64(&ctr, 1)
@@ -807,7 +814,7 @@ func c08GenRun(rng *RNG, tier string, i int) *c08Run {
 	if r.Kind == "wide1500" && i%100 == 7 {
 		// the forced wide runs: the overflowing queue is consumed by one or two slow consumers and
 		// nothing is filtered away, so that more than ChanSize paths are pending
-		r.C, r.DelayMode = 1+rng.Intn(2), 1
+		r.C, r.DelayMode = 1+rng.Intn(2), 3
 		switch (i / 100) % 3 {
 		case 0:
 			r.OnFile, r.HasFF = true, false
@@ -940,7 +947,7 @@ func c08Forced(o *Out, rep int) {
 		got := append([]string(nil), items...)
 		mu.Unlock()
 		d := map[string]interface{}{"op": "forced-schedule", "target": "fsloop.Loop", "tree": []string{"only.txt"}, "consumers": 1, "producents": 1,
-			"schedule": "consumer held at fsloop.consumer.gap; gated producer released, lists, enqueues, finishes; fsloop.closed announced; consumer released",
+			"schedule":        "consumer held at fsloop.consumer.gap; gated producer released, lists, enqueues, finishes; fsloop.closed announced; consumer released",
 			"schedule_forced": atomic.LoadInt32(ok) == 1, "observed": got, "errors": nerr, "hang": hang}
 		o.Stat("forced_loop")
 		if atomic.LoadInt32(ok) != 1 {
